@@ -46,6 +46,9 @@ CLAIMED = {
  "C09": ("region/effect abstract interpretation (receiver purity and result sharing) with interprocedural summaries to a two-phase least fix-point over the tree class family; regex character-class comparison of the Newick writer and tokeniser",
          "Static: none of 36 operations documented as returning a new tree or a value (resolved for TreeNode and PhyloNode) contains a store, container mutation, property-setter effect or child adoption whose target lies exactly in the receiver's region, through calls resolved inside the class; the new trees hold no mutable dict/list/node of the receiver; every character the Newick tokeniser treats as structure makes the writer quote the name, quotes are doubled/un-doubled and blank/underscore munging is symmetric. Topology and path-length invariance are not decided.",
          "Trusts python ast, the effect model of containers/numpy, the tree-specific effect facts (adoption by constructors, parent setter derived from source), under-approximate through unresolved calls and mixed regions."),
+ "C03": ("region/effect abstract interpretation (receiver purity) over the alignment class family, MRO-table signature parity of the sibling classes, constructor-call completeness for history state, paired-component dependency rule",
+         "Static: none of ~55 listed operations (resolved for ArrayAlignment, Alignment, SequenceCollection, and for Aligned) mutates its receiver; the two alignment classes take the same parameters with the same defaults for every shared public operation; every functional rebuild of SeqsData / IndelMap carries its history state; an Aligned's map and data are always recomputed together. That rows equal the string model is not decided.",
+         "Trusts python ast, the numpy/container effect model, the allow-list (_named_seqs memo, _repr_policy), the curated history-state table."),
 }
 
 NOT_APPLICABLE = {
